@@ -632,6 +632,7 @@ func TestC06(t *testing.T) {
 		}
 	})
 	overlappingClose(r)
+	gaterWindow(r)
 	r.Require("conns", 1000)
 	r.Require("parked_disconnects", 20)
 	r.Require("forced_notconnected", 20)
